@@ -1178,6 +1178,8 @@ class DiscretizedSpaceElement(Tensor):
             except TypeError:
                 axis = (int(axis),)
 
+            # Negative axes count from the end, as in Numpy
+            axis = tuple(int(a) % self.ndim for a in axis)
             reduced_axes = [i for i in range(self.ndim) if i not in axis]
 
         # --- Evaluate ufunc --- #
